@@ -75,13 +75,15 @@ def build(spec):
     return xm, x, y, Rotation(q.copy()).data.reshape(n, -1)
 
 
-def rand_spec(kind=None, origin=None, step=None, small=False):
+def rand_spec(kind=None, origin=None, step=None, small=False, single=False):
     kind = kind or R.choice(["2d"] * 6 + ["1dx"] * 2 + ["1dy", "1dy_nox"])
     hi = 4 if small else 7
     nr = R.randint(2, hi) if kind != "1dx" else 1
     nc = R.randint(2, hi + 1) if kind in ("2d", "1dx") else 1
     if kind == "1dx" and not small:
         nc = R.randint(2, 12)
+    if single:                         # a map with one point (0-dimensional, shape ())
+        kind, nr, nc = "1dx", 1, 1
     step = step or R.choice(["dyadic"] * 2 + ["other"])
     pool = STEPS_DYADIC if step == "dyadic" else STEPS_OTHER
     dx, dy = R.choice(pool), R.choice(pool)
@@ -385,6 +387,22 @@ def check_state(xm, ref, spec, strat, site_prefix, rep):
     except Exception as e:  # noqa
         ok = False
         fail(f"get_map_data-array:{s2}", f"get_map_data(ndarray) raises {type(e).__name__}", rep)
+    # 2-D item with one RGB triple per point (maps of more than 3 points): a trailing axis of length 3
+    if ref.n > 3:
+        rgb = np.array([[0.25 * i, 1.0 + i, 7.0 - i] for i in range(ids.size)])
+        exp = np.full(exp_shape + (3,), np.nan)
+        exp[rel] = rgb
+        try:
+            got = xm.get_map_data(rgb)
+            if got.shape != exp.shape or not np.array_equal(got, exp, equal_nan=True):
+                ok = False
+                fail(f"get_map_data-rgb:{strat}", f"get_map_data(ndarray of shape {rgb.shape}) returns shape "
+                                                  f"{got.shape}, expected one RGB triple per (row, col) in shape "
+                                                  f"{exp.shape}", rep)
+        except Exception as e:  # noqa
+            ok = False
+            fail(f"get_map_data-rgb:{strat}", f"get_map_data(ndarray of shape {rgb.shape}) raises "
+                                              f"{type(e).__name__}", rep)
     return True
 
 
@@ -458,8 +476,9 @@ def run_case(spec, ops, tag, record=True, full_obs=True):
 
 
 def _check_nonrect(new, ref, spec, site, rep):
-    """a slice applied to a non-rectangular selection: ids first (known finding
-    stratum), remaining clauses are only meaningful when ids agree"""
+    """a slice applied to a non-rectangular selection (the stratum of the repaired
+    mask-then-slice defect, signature kept): ids first, remaining clauses are only
+    meaningful when ids agree"""
     if not np.array_equal(new.id, ref.ids):
         fail(f"{site}:nonrect", f"slice of a non-rectangular selection gives ids {new.id.tolist()}, reference "
                                 f"{ref.ids.tolist()} (masked-out points are re-included)", rep)
@@ -467,7 +486,12 @@ def _check_nonrect(new, ref, spec, site, rep):
     return check_state(new, ref, spec, "plain", site, rep)
 
 
-# ----------------------------------------------------------------- witnesses
+# --------------------------------------------------------------- regressions
+# The concrete histories on which the unrepaired code violated the property (the
+# former _refuted theorems; now the _nonvacuous regression instances of
+# Props/C11.v).  They are run first on every check; `sig` is the signature the
+# oracle emits if the defect comes back (it is then a VIOLATION: the entries
+# of known_findings.d/C11.json with these signatures are of kind "fixed").
 def base_spec(kind, nr, nc, ox, oy, dx, dy):
     n = nr * nc
     return {"kind": kind, "nr": nr, "nc": nc, "ox": ox, "oy": oy, "dx": dx, "dy": dy, "origin": "w", "step": "w",
@@ -493,6 +517,11 @@ WITNESSES = [
      [{"mask": [p in (1, 5, 6) for p in range(12)]}], "get_map_data-array:three-points"),
     ("single_point", base_spec("1dx", 1, 1, 0.0, 0.0, 1.0, 1.0), [{"sel": [{"int": 0}]}],
      "get_map_data:single-point"),
+    ("single_point_mask", base_spec("1dx", 1, 1, 2.0, 0.0, 1.0, 1.0),
+     [{"mask": [True]}, {"phase": ["not_indexed"]}, {"mask": [False]}], "row-col:single-point"),
+    ("nonrect_offset_history", base_spec("2d", 3, 4, 1.4, 0.0, 0.7, 1.5),
+     [{"mask": [p != 5 for p in range(12)]}, {"sel": [FULL, FULL]}, {"sel": [{"sl": [None, None, 2]}]},
+      {"sel": [FULL, {"sl": [1, 4, None]}]}, {"phase": ["indexed"]}], "getitem-slice:origin-offset"),
 ]
 
 
@@ -503,10 +532,10 @@ if ONLY is not None:
 else:
     for name, spec, ops, sig in WITNESSES:
         n0 = len(fails)
-        run_case(spec, ops, "witness:" + name)
-        witness_status[name] = {"sig": sig, "reproduced": any(f["sig"] == sig for f in fails[n0:])}
+        run_case(spec, ops, "regression:" + name)
+        witness_status[name] = {"sig": sig, "passes": len(fails) == n0}
     for k in range(N):
-        spec = rand_spec()
+        spec = rand_spec(single=R.random() < 0.04)
         nops = R.choice([1, 2, 2, 3, 3, 4, 5, 6])
         ops = []
         ref = Ref(spec, *coords(spec))
@@ -514,10 +543,9 @@ else:
         for _ in range(nops):
             size = ref.ids.size
             shape = [hi - lo for lo, hi in ref.bbox()] if size else None
-            force_rect = R.random() < 0.55
             op = rand_op(size, shape)
-            if "sel" in op and not ref.is_rect() and force_rect:
-                op = rand_op(size, None)            # keep most histories inside the guarded stratum
+            if shape == []:                          # single point: no axis to index
+                op = {"sel": [rand_key1(1)]} if R.random() < 0.25 else rand_op(size, None)
             ops.append(op)
             want = ref.apply(op)
             if isinstance(want, str):
